@@ -91,7 +91,7 @@ def ffunc_factories(N):
         out["mean[%s]" % t] = lambda ig=ig: ffuncs.ffunc_mean(F["base"], F["w"], ignore_missing=ig)
         out["mean-int[%s]" % t] = lambda ig=ig: ffuncs.ffunc_mean(F["ints"], ignore_missing=ig)
         # (values, validity) facts together with weights that are missing on rows where the fact is valid
-        out["mean-pair-w[%s]" % t] = lambda ig=ig: ffuncs.ffunc_mean(F["pair"], F["w"], ignore_missing=ig)
+        out["mean-pair-w[%s]" % t] = lambda ig=ig: ffuncs.ffunc_mean(F["pair"], F["wn"], ignore_missing=ig)
         out["sum-ints-wv[%s]" % t] = lambda ig=ig: ffuncs.ffunc_sum(F["ints"], F["wv"], ignore_missing=ig)
         out["valid_count-pair-wv[%s]" % t] = lambda ig=ig: ffuncs.ffunc_valid_count(F["pair"], F["wv"], ignore_missing=ig)
     return out, F
@@ -120,7 +120,7 @@ def xfunc_factories(N):
         out["covariance[%s]" % t] = lambda ig=ig: xfuncs.xfunc_covariance(F["two"], warr, ignore_missing=ig)
         out["corrcoef[%s]" % t] = lambda ig=ig: xfuncs.xfunc_corrcoef(F["two"], ignore_missing=ig)
         # (values, validity) facts together with weights that are missing on rows where the fact is valid
-        out["mean-pair-w[%s]" % t] = lambda ig=ig: xfuncs.xfunc_mean(F["pair"], F["w"], ignore_missing=ig)
+        out["mean-pair-w[%s]" % t] = lambda ig=ig: xfuncs.xfunc_mean(F["pair"], F["wn"], ignore_missing=ig)
         out["sum-ints-wv[%s]" % t] = lambda ig=ig: xfuncs.xfunc_sum(F["ints"], F["wv"], ignore_missing=ig)
         out["valid_count-pair-wv[%s]" % t] = lambda ig=ig: xfuncs.xfunc_valid_count(F["pair"], F["wv"], ignore_missing=ig)
         out["stddev-pair-wv[%s]" % t] = lambda ig=ig: xfuncs.xfunc_stddev(F["pair"], F["wv"], ignore_missing=ig)
